@@ -302,7 +302,7 @@ Theorem C06_loops_rs_match_model w : 0 < w ->
 Proof. exact (loops_C06_match_model w). Qed.
 Print Assumptions C06_loops_rs_match_model.
 (* ---- second batch: the array read / write functions of /repo/src/buint/mod.rs without loops (from_digit, digits,
-   from_digits, bit, set_bit, power_of_two), regenerated on every run like the loop functions, compute exactly the model's
+   from_digits, bit, set_bit, power_of_two), bits() and src/buint/checked.rs checked_next_power_of_two, regenerated on every run like the loop functions, compute exactly the model's
    functions; where the model returns `outcome` (the Rust index panic), Panicked corresponds to Panic.  The digit width is
    a power of two (`index >> BIT_SHIFT`, `index & BITS_MINUS_1`); from_digit indexes digit 0: N > 0.
    (`set_bit(&mut self, ..)`: the generated function returns the updated *self.) ---- *)
@@ -319,6 +319,10 @@ Theorem C06_loops2_rs_match_model w lg : 0 <= lg -> w = 2 ^ lg ->
      match Bits.set_bit w a index value with Ret r => Done r | Panic => Panicked end) /\
   (forall n power fuel, 0 <= power ->
      Loops.power_of_two w (Z.of_nat n) fuel power =
-     match Bits.power_of_two w n power with Ret r => Done r | Panic => Panicked end).
+     match Bits.power_of_two w n power with Ret r => Done r | Panic => Panicked end) /\
+  (forall n a fuel, wf w n a -> (n <= fuel)%nat -> Loops.bits w (Z.of_nat n) fuel a = Done (Bits.bits_of w a)) /\
+  (forall n a fuel, wf w n a -> (n <= fuel)%nat ->
+     Loops.checked_next_power_of_two w (Z.of_nat n) fuel a =
+     match Bits.U_checked_next_power_of_two w a with Ret o => Done o | Panic => Panicked end).
 Proof. exact (loops_C06b_match_model w lg). Qed.
 Print Assumptions C06_loops2_rs_match_model.
